@@ -5,7 +5,11 @@
 //   wrappers, over the real Cert / TbsCert / ResourceCert definitions.
 // Abstract: sig_ok (signature verification, aws-lc), ski_of (SHA-1 key identifier), the instants
 // of Time, the address / AS-number sets of IpBlocks / AsBlocks.  Callee contracts taken from other
-// units: Validity::verify_at (unit validity), IpBlocks/AsBlocks::verify_issued (unit res_sets).
+// units through contract links (//@stub): Validity::verify_at (unit validity), IpBlocks /
+// AsBlocks::{verify_issued, empty} (unit res_sets).  The latter require the resource chains to be in
+// canonical form (`ip_wf` / `as_wf`, established by decoding through FromIterator): `cert_res_wf` of the
+// certificate and `rc_wf` of the issuer are preconditions of the issued-certificate functions, and
+// `rc_wf` of the result is a postcondition, so the condition is handed down the validation chain.
 use vstd::prelude::*;
 use vstd::std_specs::cmp::*;
 use vstd::std_specs::convert::*;
@@ -74,14 +78,14 @@ pub mod uri {
     #[verifier::external_body]
     pub struct Https { _o: u8 }
 }
-/// resolved resource sets (their chain representation is the subject of units chain_* / res_sets)
-#[verifier::external_body]
-pub struct IpBlocks { _o: u8 }
-#[verifier::external_body]
-pub struct AsBlocks { _o: u8 }
-/// the set of addresses / AS numbers denoted
-pub uninterp spec fn ipv(b: IpBlocks) -> Set<int>;
-pub uninterp spec fn asv(b: AsBlocks) -> Set<int>;
+// resolved resource sets: opaque IpBlocks / AsBlocks with the abstract views ip_set / as_set (the set
+// denoted), ip_wf / as_wf (canonical form), ip_len / as_len -- the vocabulary of the contracts linked from
+// unit res_sets
+//@include shared/resview_abstract.v.rs
+/// block-level refinement of the verify_issued contracts (which block sequence is returned, not only
+/// which set): defined in unit res_sets, abstract and unused here
+pub uninterp spec fn ip_issued_blocks(issuer: IpBlocks, res: IpResources, mode: Overclaim, r: Result<IpBlocks, OverclaimedIpResources>) -> bool;
+pub uninterp spec fn as_issued_blocks(issuer: AsBlocks, res: AsResources, mode: Overclaim, r: Result<AsBlocks, OverclaimedAsResources>) -> bool;
 
 // =================================================================================================
 // environment: real item definitions of other modules
@@ -130,42 +134,27 @@ pub uninterp spec fn name_rpki_ok(n: Name, strict: bool) -> bool;
 /// abstract: Name::inspect_router accepts the name
 pub uninterp spec fn name_router_ok(n: Name, strict: bool) -> bool;
 
-/// "the evaluation time lies inside its validity window" (Unit validity: in_window)
-pub open spec fn in_window(v: Validity, t: int) -> bool {
-    tat(v.not_before) <= t <= tat(v.not_after)
-}
+// `in_window`: "the evaluation time lies inside the validity window" -- shared with unit validity
+//@include shared/time_vocab.v.rs
 
 pub open spec fn ip_inherited(res: IpResources) -> bool { res.0 is Inherit }
 pub open spec fn as_inherited(res: AsResources) -> bool { res.0 is Inherit }
 /// the blocks a certificate claims itself (nothing for missing / inherit)
-pub open spec fn ip_claim(res: IpResources) -> Set<int> {
-    match res.0 { ResourcesChoice::Blocks(b) => ipv(b), _ => Set::empty() }
+pub open spec fn ip_claim(res: IpResources) -> ISet<int> {
+    match res.0 { ResourcesChoice::Blocks(b) => ip_set(b), _ => ISet::empty() }
 }
-pub open spec fn as_claim(res: AsResources) -> Set<int> {
-    match res.0 { ResourcesChoice::Blocks(b) => asv(b), _ => Set::empty() }
+pub open spec fn as_claim(res: AsResources) -> ISet<int> {
+    match res.0 { ResourcesChoice::Blocks(b) => as_set(b), _ => ISet::empty() }
 }
-/// The resources a certificate validly receives from an issuer holding `issuer`:
-///   missing => nothing; inherit => the issuer's own; claimed blocks under the no-overclaim policy
-///   => exactly the claim if covered, else failure; under the trimming policy => the intersection.
-pub open spec fn ip_issued(issuer: Set<int>, res: IpResources, mode: Overclaim) -> Option<Set<int>> {
-    match res.0 {
-        ResourcesChoice::Missing => Some(Set::empty()),
-        ResourcesChoice::Inherit => Some(issuer),
-        ResourcesChoice::Blocks(c) => match mode {
-            Overclaim::Refuse => if ipv(c).subset_of(issuer) { Some(ipv(c)) } else { None },
-            Overclaim::Trim => Some(ipv(c).intersect(issuer)),
-        },
-    }
-}
-pub open spec fn as_issued(issuer: Set<int>, res: AsResources, mode: Overclaim) -> Option<Set<int>> {
-    match res.0 {
-        ResourcesChoice::Missing => Some(Set::empty()),
-        ResourcesChoice::Inherit => Some(issuer),
-        ResourcesChoice::Blocks(c) => match mode {
-            Overclaim::Refuse => if asv(c).subset_of(issuer) { Some(asv(c)) } else { None },
-            Overclaim::Trim => Some(asv(c).intersect(issuer)),
-        },
-    }
+// `ip_issued` / `as_issued`: the resources a certificate validly receives from an issuer (missing =>
+// nothing; inherit => the issuer's own; claimed blocks under the no-overclaim policy => exactly the claim
+// if covered, else failure; under the trimming policy => the intersection), and `ip_res_wf` / `as_res_wf`:
+// shared with unit res_sets, which proves the linked verify_issued contracts
+//@include shared/resview_vocab.v.rs
+/// the decoded resource extensions of a certificate are in canonical form (established by decoding:
+/// IpBlocks / AsBlocks are only built through FromIterator, unit res_sets / chain_build)
+pub open spec fn cert_res_wf(c: Cert) -> bool {
+    ip_res_wf(c.tbs.v4_resources) && ip_res_wf(c.tbs.v6_resources) && as_res_wf(c.tbs.as_resources)
 }
 
 /// the certificate claims `issuer` as its issuer: AKI present and equal to the issuer's SKI,
@@ -182,18 +171,20 @@ pub open spec fn issued_basic_ok(c: Cert, issuer: ResourceCert, now: Time) -> bo
 }
 /// all three resource sets can be issued
 pub open spec fn resources_ok(c: Cert, issuer: ResourceCert) -> bool {
-    ip_issued(ipv(issuer.v4_resources), c.tbs.v4_resources, c.tbs.overclaim).is_some()
-    && ip_issued(ipv(issuer.v6_resources), c.tbs.v6_resources, c.tbs.overclaim).is_some()
-    && as_issued(asv(issuer.as_resources), c.tbs.as_resources, c.tbs.overclaim).is_some()
+    ip_issued(ip_set(issuer.v4_resources), c.tbs.v4_resources, c.tbs.overclaim).is_some()
+    && ip_issued(ip_set(issuer.v6_resources), c.tbs.v6_resources, c.tbs.overclaim).is_some()
+    && as_issued(as_set(issuer.as_resources), c.tbs.as_resources, c.tbs.overclaim).is_some()
 }
-/// the validated result carries the certificate, the issued resources and the issuer's TAL
-pub open spec fn issued_result(rc: ResourceCert, c: Cert, issuer: ResourceCert) -> bool {
-    rc.cert == c
-    && rc.tal == issuer.tal
-    && Some(ipv(rc.v4_resources)) == ip_issued(ipv(issuer.v4_resources), c.tbs.v4_resources, c.tbs.overclaim)
-    && Some(ipv(rc.v6_resources)) == ip_issued(ipv(issuer.v6_resources), c.tbs.v6_resources, c.tbs.overclaim)
-    && Some(asv(rc.as_resources)) == as_issued(asv(issuer.as_resources), c.tbs.as_resources, c.tbs.overclaim)
+/// the three resource sets attached to the validated certificate are the issued ones
+pub open spec fn issued_resources(rc: ResourceCert, c: Cert, issuer: ResourceCert) -> bool {
+    Some(ip_set(rc.v4_resources)) == ip_issued(ip_set(issuer.v4_resources), c.tbs.v4_resources, c.tbs.overclaim)
+    && Some(ip_set(rc.v6_resources)) == ip_issued(ip_set(issuer.v6_resources), c.tbs.v6_resources, c.tbs.overclaim)
+    && Some(as_set(rc.as_resources)) == as_issued(as_set(issuer.as_resources), c.tbs.as_resources, c.tbs.overclaim)
 }
+// `issued_result`: the validated result carries the certificate, the issuer's TAL and the issued
+// resources; `rc_wf`: its resource chains are canonical -- shared with the units that assume
+// Cert::validate_ee_at through a contract link
+//@include shared/cert_vocab.v.rs
 /// what inspect_basics checks: the two signature-algorithm fields agree, issuer and subject names
 /// have the RPKI form, RSA key, the SKI is the hash of the key, no extended key usage
 pub open spec fn basics_ok(c: Cert, strict: bool) -> bool {
@@ -248,9 +239,9 @@ pub open spec fn ta_ok(c: Cert, now: Time) -> bool {
 /// the validated trust anchor carries the certificate, its own claimed resources and the TAL
 pub open spec fn ta_result(rc: ResourceCert, c: Cert, tal: Arc<TalInfo>) -> bool {
     rc.cert == c && rc.tal == tal
-    && ipv(rc.v4_resources) == ip_claim(c.tbs.v4_resources)
-    && ipv(rc.v6_resources) == ip_claim(c.tbs.v6_resources)
-    && asv(rc.as_resources) == as_claim(c.tbs.as_resources)
+    && ip_set(rc.v4_resources) == ip_claim(c.tbs.v4_resources)
+    && ip_set(rc.v6_resources) == ip_claim(c.tbs.v6_resources)
+    && as_set(rc.as_resources) == as_claim(c.tbs.as_resources)
 }
 
 // =================================================================================================
@@ -282,11 +273,10 @@ pub mod ax {
 }
 
 impl Validity {
-    /// assumed here, proved in unit validity (Validity::verify_at)
-    #[verifier::external_body]
+    /// contract link: proved in unit validity (Validity::verify_at), text taken from there
+    //@stub validity :: impl Validity :: verify_at
     pub fn verify_at(self, now: Time) -> (r: Result<(), ValidityPeriodError>)
-        ensures r.is_ok() <==> in_window(self, tat(now))
-    { unimplemented!() }
+    //@end
 }
 
 impl SignedData {
@@ -320,29 +310,26 @@ impl Name {
 }
 
 impl IpBlocks {
-    /// assumed (R9 in the chain units: SharedChain::empty): no addresses
-    #[verifier::external_body]
-    pub fn empty() -> (r: Self) ensures ipv(r) == Set::<int>::empty() { unimplemented!() }
+    /// contract link: proved in unit res_sets
+    //@stub res_sets :: impl IpBlocks :: empty
+    pub fn empty() -> (r: Self)
+    //@end
 
-    /// assumed here, proved in unit res_sets
-    #[verifier::external_body]
+    /// contract link: proved in unit res_sets
+    //@stub res_sets :: impl IpBlocks :: verify_issued
     pub fn verify_issued(&self, res: &IpResources, mode: Overclaim) -> (r: Result<IpBlocks, OverclaimedIpResources>)
-        ensures
-            r.is_ok() <==> ip_issued(ipv(*self), *res, mode).is_some(),
-            r matches Ok(b) ==> Some(ipv(b)) == ip_issued(ipv(*self), *res, mode),
-    { unimplemented!() }
+    //@end
 }
 impl AsBlocks {
-    #[verifier::external_body]
-    pub fn empty() -> (r: Self) ensures asv(r) == Set::<int>::empty() { unimplemented!() }
+    /// contract link: proved in unit res_sets
+    //@stub res_sets :: impl AsBlocks :: empty
+    pub fn empty() -> (r: Self)
+    //@end
 
-    /// assumed here, proved in unit res_sets
-    #[verifier::external_body]
+    /// contract link: proved in unit res_sets
+    //@stub res_sets :: impl AsBlocks :: verify_issued
     pub fn verify_issued(&self, res: &AsResources, mode: Overclaim) -> (r: Result<AsBlocks, OverclaimedAsResources>)
-        ensures
-            r.is_ok() <==> as_issued(asv(*self), *res, mode).is_some(),
-            r matches Ok(b) ==> Some(asv(b)) == as_issued(asv(*self), *res, mode),
-    { unimplemented!() }
+    //@end
 }
 impl Clone for IpResources {
     /// derive(Clone): the clone is the same choice with the same blocks (Arc-shared chain)
@@ -484,7 +471,7 @@ impl IpBlocks {
     //@spec
         ensures
             r.is_ok() <==> !ip_inherited(res),
-            r matches Ok(b) ==> ipv(b) == ip_claim(res),
+            r matches Ok(b) ==> ip_set(b) == ip_claim(res) && (ip_res_wf(res) ==> ip_wf(b)),
     //@/spec
     //@end
 }
@@ -493,7 +480,7 @@ impl AsBlocks {
     //@spec
         ensures
             r.is_ok() <==> !as_inherited(res),
-            r matches Ok(b) ==> asv(b) == as_claim(res),
+            r matches Ok(b) ==> as_set(b) == as_claim(res) && (as_res_wf(res) ==> as_wf(b)),
     //@/spec
     //@end
 }
@@ -731,39 +718,43 @@ impl Cert {
     //@spec
         ensures
             r.is_ok() <==> inspect_ta_ok(self, strict) && ta_ok(self, now),
-            r matches Ok(rc) ==> ta_result(rc, self, tal),
+            r matches Ok(rc) ==> ta_result(rc, self, tal) && (cert_res_wf(self) ==> rc_wf(rc)),
     //@/spec
     //@end
 
     //@fn src/repository/cert.rs :: impl Cert :: validate_ca_at
     //@spec
+        requires cert_res_wf(self), rc_wf(*issuer),
         ensures
             r.is_ok() <==> inspect_ca_ok(self, strict) && issued_basic_ok(self, *issuer, now) && resources_ok(self, *issuer),
-            r matches Ok(rc) ==> issued_result(rc, self, *issuer),
+            r matches Ok(rc) ==> issued_result(rc, self, *issuer) && rc_wf(rc),
     //@/spec
     //@end
 
     //@fn src/repository/cert.rs :: impl Cert :: validate_ee_at
     //@spec
+        requires cert_res_wf(self), rc_wf(*issuer),
         ensures
             r.is_ok() <==> inspect_ee_ok(self, strict) && issued_basic_ok(self, *issuer, now) && resources_ok(self, *issuer),
-            r matches Ok(rc) ==> issued_result(rc, self, *issuer),
+            r matches Ok(rc) ==> issued_result(rc, self, *issuer) && rc_wf(rc),
     //@/spec
     //@end
 
     //@fn src/repository/cert.rs :: impl Cert :: validate_detached_ee_at
     //@spec
+        requires cert_res_wf(self), rc_wf(*issuer),
         ensures
             r.is_ok() <==> inspect_detached_ee_ok(self, strict) && issued_basic_ok(self, *issuer, now) && resources_ok(self, *issuer),
-            r matches Ok(rc) ==> issued_result(rc, self, *issuer),
+            r matches Ok(rc) ==> issued_result(rc, self, *issuer) && rc_wf(rc),
     //@/spec
     //@end
 
     //@fn src/repository/cert.rs :: impl Cert :: validate_router_at
     //@spec
+        requires cert_res_wf(*self), rc_wf(*issuer),
         ensures
             r.is_ok() <==> inspect_router_ok(*self, strict) && issued_basic_ok(*self, *issuer, now)
-                && as_issued(asv(issuer.as_resources), self.tbs.as_resources, self.tbs.overclaim).is_some(),
+                && as_issued(as_set(issuer.as_resources), self.tbs.as_resources, self.tbs.overclaim).is_some(),
     //@/spec
     //@end
 
@@ -791,40 +782,45 @@ impl Cert {
     //@fn src/repository/cert.rs :: impl Cert :: verify_resources
     //@sub R12 "|_|" "|_e|" n=3
     //@spec
+        requires cert_res_wf(self), rc_wf(*issuer),
         ensures
             r.is_ok() <==> resources_ok(self, *issuer),
-            r matches Ok(rc) ==> issued_result(rc, self, *issuer),
+            r matches Ok(rc) ==> issued_result(rc, self, *issuer) && rc_wf(rc),
     //@/spec
     //@end
 
     //@fn src/repository/cert.rs :: impl Cert :: verify_as_resources
     //@sub R12 "|_|" "|_e|"
     //@spec
-        ensures r.is_ok() <==> as_issued(asv(issuer.as_resources), self.tbs.as_resources, self.tbs.overclaim).is_some(),
+        requires cert_res_wf(*self), rc_wf(*issuer),
+        ensures r.is_ok() <==> as_issued(as_set(issuer.as_resources), self.tbs.as_resources, self.tbs.overclaim).is_some(),
     //@/spec
     //@end
 
     //@fn src/repository/cert.rs :: impl Cert :: verify_ca_at
     //@spec
+        requires cert_res_wf(self), rc_wf(*issuer),
         ensures
             r.is_ok() <==> issued_basic_ok(self, *issuer, now) && resources_ok(self, *issuer),
-            r matches Ok(rc) ==> issued_result(rc, self, *issuer),
+            r matches Ok(rc) ==> issued_result(rc, self, *issuer) && rc_wf(rc),
     //@/spec
     //@end
 
     //@fn src/repository/cert.rs :: impl Cert :: verify_ee_at
     //@spec
+        requires cert_res_wf(self), rc_wf(*issuer),
         ensures
             r.is_ok() <==> issued_basic_ok(self, *issuer, now) && resources_ok(self, *issuer),
-            r matches Ok(rc) ==> issued_result(rc, self, *issuer),
+            r matches Ok(rc) ==> issued_result(rc, self, *issuer) && rc_wf(rc),
     //@/spec
     //@end
 
     //@fn src/repository/cert.rs :: impl Cert :: verify_router_at
     //@spec
+        requires cert_res_wf(*self), rc_wf(*issuer),
         ensures
             r.is_ok() <==> issued_basic_ok(*self, *issuer, now)
-                && as_issued(asv(issuer.as_resources), self.tbs.as_resources, self.tbs.overclaim).is_some(),
+                && as_issued(as_set(issuer.as_resources), self.tbs.as_resources, self.tbs.overclaim).is_some(),
     //@/spec
     //@end
 
@@ -833,7 +829,7 @@ impl Cert {
     //@spec
         ensures
             r.is_ok() <==> ta_ok(self, now),
-            r matches Ok(rc) ==> ta_result(rc, self, tal),
+            r matches Ok(rc) ==> ta_result(rc, self, tal) && (cert_res_wf(self) ==> rc_wf(rc)),
     //@/spec
     //@end
 
@@ -848,23 +844,23 @@ impl Cert {
 // consequences
 // =================================================================================================
 /// resources never grow: whatever is issued is a subset of what the issuer holds
-pub proof fn lemma_ip_issued_subset(issuer: Set<int>, res: IpResources, mode: Overclaim)
+pub proof fn lemma_ip_issued_subset(issuer: ISet<int>, res: IpResources, mode: Overclaim)
     ensures ip_issued(issuer, res, mode) matches Some(s) ==> s.subset_of(issuer),
 {}
-pub proof fn lemma_as_issued_subset(issuer: Set<int>, res: AsResources, mode: Overclaim)
+pub proof fn lemma_as_issued_subset(issuer: ISet<int>, res: AsResources, mode: Overclaim)
     ensures as_issued(issuer, res, mode) matches Some(s) ==> s.subset_of(issuer),
 {}
 /// ... stated on a validated result
 pub proof fn lemma_resources_never_grow(rc: ResourceCert, c: Cert, issuer: ResourceCert)
     requires issued_result(rc, c, issuer),
     ensures
-        ipv(rc.v4_resources).subset_of(ipv(issuer.v4_resources)),
-        ipv(rc.v6_resources).subset_of(ipv(issuer.v6_resources)),
-        asv(rc.as_resources).subset_of(asv(issuer.as_resources)),
+        ip_set(rc.v4_resources).subset_of(ip_set(issuer.v4_resources)),
+        ip_set(rc.v6_resources).subset_of(ip_set(issuer.v6_resources)),
+        as_set(rc.as_resources).subset_of(as_set(issuer.as_resources)),
 {
-    lemma_ip_issued_subset(ipv(issuer.v4_resources), c.tbs.v4_resources, c.tbs.overclaim);
-    lemma_ip_issued_subset(ipv(issuer.v6_resources), c.tbs.v6_resources, c.tbs.overclaim);
-    lemma_as_issued_subset(asv(issuer.as_resources), c.tbs.as_resources, c.tbs.overclaim);
+    lemma_ip_issued_subset(ip_set(issuer.v4_resources), c.tbs.v4_resources, c.tbs.overclaim);
+    lemma_ip_issued_subset(ip_set(issuer.v6_resources), c.tbs.v6_resources, c.tbs.overclaim);
+    lemma_as_issued_subset(as_set(issuer.as_resources), c.tbs.as_resources, c.tbs.overclaim);
 }
 
 /// The acceptance conditions named by the property, read off the contracts above: an issued CA / EE
@@ -891,11 +887,11 @@ pub proof fn lemma_single_point_change(c: Cert, issuer: ResourceCert, now: Time)
         c.tbs.authority_key_identifier != Some(issuer.cert.tbs.subject_key_identifier) ==> !issued_basic_ok(c, issuer, now),
         // a no-overclaim certificate claiming anything outside the issuer's resources is rejected
         (c.tbs.overclaim is Refuse && c.tbs.v4_resources.0 is Blocks
-            && !ipv(c.tbs.v4_resources.0->Blocks_0).subset_of(ipv(issuer.v4_resources))) ==> !resources_ok(c, issuer),
+            && !ip_set(c.tbs.v4_resources.0->Blocks_0).subset_of(ip_set(issuer.v4_resources))) ==> !resources_ok(c, issuer),
         (c.tbs.overclaim is Refuse && c.tbs.v6_resources.0 is Blocks
-            && !ipv(c.tbs.v6_resources.0->Blocks_0).subset_of(ipv(issuer.v6_resources))) ==> !resources_ok(c, issuer),
+            && !ip_set(c.tbs.v6_resources.0->Blocks_0).subset_of(ip_set(issuer.v6_resources))) ==> !resources_ok(c, issuer),
         (c.tbs.overclaim is Refuse && c.tbs.as_resources.0 is Blocks
-            && !asv(c.tbs.as_resources.0->Blocks_0).subset_of(asv(issuer.as_resources))) ==> !resources_ok(c, issuer),
+            && !as_set(c.tbs.as_resources.0->Blocks_0).subset_of(as_set(issuer.as_resources))) ==> !resources_ok(c, issuer),
 {}
 /// a trust anchor is accepted only with a valid self-signature, inside its window, without inherited resources
 pub proof fn lemma_ta_requires(c: Cert, now: Time)
@@ -914,16 +910,19 @@ pub proof fn reach_resources(c: Cert, issuer: ResourceCert)
     requires
         c.tbs.v4_resources.0 is Inherit,
         c.tbs.v6_resources.0 is Missing,
-        c.tbs.as_resources.0 matches ResourcesChoice::Blocks(b) && asv(b).subset_of(asv(issuer.as_resources)),
+        c.tbs.as_resources.0 matches ResourcesChoice::Blocks(b) && as_set(b).subset_of(as_set(issuer.as_resources)) && as_wf(b),
+        ip_wf(issuer.v4_resources), ip_wf(issuer.v6_resources), as_wf(issuer.as_resources),
     ensures
+        // the well-formedness preconditions of the issued-certificate functions are satisfiable
+        cert_res_wf(c), rc_wf(issuer),
         resources_ok(c, issuer),
-        ip_issued(ipv(issuer.v4_resources), c.tbs.v4_resources, c.tbs.overclaim) == Some(ipv(issuer.v4_resources)),
-        ip_issued(ipv(issuer.v6_resources), c.tbs.v6_resources, c.tbs.overclaim) == Some(Set::<int>::empty()),
-        as_issued(asv(issuer.as_resources), c.tbs.as_resources, c.tbs.overclaim)
+        ip_issued(ip_set(issuer.v4_resources), c.tbs.v4_resources, c.tbs.overclaim) == Some(ip_set(issuer.v4_resources)),
+        ip_issued(ip_set(issuer.v6_resources), c.tbs.v6_resources, c.tbs.overclaim) == Some(ISet::<int>::empty()),
+        as_issued(as_set(issuer.as_resources), c.tbs.as_resources, c.tbs.overclaim)
             == Some(as_claim(c.tbs.as_resources)),
 {
     let b = c.tbs.as_resources.0->Blocks_0;
-    assert(asv(b).intersect(asv(issuer.as_resources)) =~= asv(b));
+    assert(as_set(b).intersect(as_set(issuer.as_resources)) =~= as_set(b));
 }
 /// a window [t, t] accepts t
 pub proof fn reach_window(v: Validity, now: Time)
